@@ -93,6 +93,22 @@ def _components(model_path: pathlib.Path) -> Dict[str, str]:
     return v
 
 
+def _damage_cache(how: str) -> None:
+    """What happens to the model cache between two runs of a history (PipeConfig.CacheHistories)."""
+    tmp = pathlib.Path(tempfile.gettempdir())
+    for f in sorted(tmp.glob("aas-core-codegen-*/*")):
+        if not f.is_file():
+            continue
+        if how == "truncate":
+            f.write_bytes(f.read_bytes()[:50])
+        elif how == "garbage":
+            f.write_bytes(b"\x80\x04garbage, not a pickle" * 5)
+        elif how == "empty_file":
+            f.write_bytes(b"")
+        elif how == "delete":
+            f.unlink()
+
+
 def _one(case: Dict[str, Any]) -> List[Dict[str, Any]]:
     d = _WORK / "case"
     if d.exists():
@@ -145,7 +161,9 @@ def _one(case: Dict[str, Any]) -> List[Dict[str, Any]]:
                 (out_dir / rel).mkdir(parents=True, exist_ok=True)
         for k in range(2 if case.get("twice") else 1):
             # the second run goes into the same, already populated output directory (a re-generation)
-            tr = pipe_trace.run_main(model_path, sn_dir, out_dir, target, text, arg_defect=defect, via_module=bool(case.get("viaModule")))
+            if k == 1 and case.get("betweenRuns"):
+                _damage_cache(case["betweenRuns"])
+            tr = pipe_trace.run_main(model_path, sn_dir, out_dir, target, text, arg_defect=defect, via_module=bool(case.get("viaModule")), cache_flag=bool(case.get("cacheFlag")))
             tr["_components"] = None
             results.append(tr)
     outs = []
